@@ -400,7 +400,10 @@ def d4(cx: Cx, ob: Ob) -> None:
             ob.violate(fn.qualname, where(fn, line), f"prefix / prefix_synonyms are `{show(head)[:40]}` / `{show(tail)[:40]}`: not head and tail of the same sequence (a duplicate prefix is dropped or repeated)", detail="head-tail")
             continue
         seq = head[1]
-        if not (op(seq) == "call" and op(seq[1]) == "builtin" and seq[1][1] == "sorted"):
+        inplace = [ev for ev, _ in s.walk() if ev.kind == "expr" and op(ev.a) == "call" and callee_name(ev.a) == "sort" and not ev.a[2] and not [k for k, _ in ev.a[3] if k in ("key", "reverse")]]
+        if not (op(seq) == "call" and op(seq[1]) == "builtin" and seq[1][1] == "sorted") and inplace:
+            ob.undecide("upgrade_prefix_map sorts its groups in place (`.sort()`); which sequence is sorted is not tracked")
+        elif not (op(seq) == "call" and op(seq[1]) == "builtin" and seq[1][1] == "sorted"):
             ob.violate(fn.qualname, where(fn, line), "upgrade_prefix_map does not sort the CURIE prefixes of a group: the canonical prefix depends on dictionary order", detail="inner-unsorted")
         else:
             kws = dict(seq[3])
